@@ -149,7 +149,7 @@ func (c *monC12) afterFault(m *Machine, s *Step, prevSMS *smsSent) *Violation {
 		}
 	case kind == "sms" && s.Secret != "":
 		if issued {
-			hit := prevSMS.findCode(s.Secret)
+			hit := prevSMS.find(s.Secret, pre.SMSPhone)
 			if hit == nil {
 				return violation("C12", "sms-code-used-twice-or-foreign"+fs, "sms validate of %q issued a session with %q; latest code for this browser: %+v", who, s.Secret, prevSMS)
 			}
@@ -338,9 +338,9 @@ func (c *monC12) After(m *Machine, s *Step) *Violation {
 		if kind == "sms" && op.K == "smsvalidate" && s.Secret != "" && !op.F {
 			if success {
 				m.flag("used:sms")
-				hit := prevSMS.findCode(s.Secret)
+				hit := prevSMS.find(s.Secret, pre.SMSPhone)
 				if hit == nil {
-					return violation("C12", "sms-code-used-twice-or-foreign", "sms validate of %q succeeded with %q; latest code for this browser: %+v", who, s.Secret, prevSMS)
+					return violation("C12", "sms-code-used-twice-or-foreign", "sms validate of %q (registered number %q) succeeded with %q; latest code for this browser: %+v", who, pre.SMSPhone, s.Secret, prevSMS)
 				}
 				hit.consumed = true
 				if _, still := r.SessAfter["sms_secret"]; still {
